@@ -222,6 +222,13 @@ def suites(tier, seed):
                 rl[0] = {"en": "Rule: R", "de": "Regel: R"}[lang]
                 flt.append({"entry": "rule", "text": "\n".join(rl) + "\n", "lang": (None if lang == "en" else lang), "fault": [where - off, name]})
 
+    # the tags entry point: tag text with blank and comment lines, one faulty line at a known place
+    for _ in range(120 if thorough else 40):
+        tl = [rnd.choice(["@a @b", "@c", "", "   ", "# note", "  @d  # x", "@e"]) for _ in range(rnd.randint(1, 7))]
+        pos = rnd.randint(0, len(tl))
+        bad = rnd.choice(["x y", "@f g", "no tag here", "@h @i j"])
+        lines = tl[:pos] + [bad] + tl[pos:]
+        flt.append({"entry": "tags", "text": "\n".join(lines) + rnd.choice(["", "\n"]), "lang": None, "fault": [pos + 1, "bad-tag-line"]})
     def suite(name, cases, bound):
         return {"name": name, "cases": cases, "impl": gherk.impl_parse, "oracle": oracle, "shrink": shrink, "histogram": histogram,
                 "nontrivial": lambda c, o: "error" in o, "bound": bound, "coq": gherk.COQ}
